@@ -18,6 +18,8 @@ fi
 T=/tmp/seed-$name; rm -rf $T; mkdir -p $T; cp -r /repo/src $T/src
 (cd $T && patch -p1 -s < $S/patch.diff) || { echo "$name NOAPPLY"; rm -rf $T; exit 3; }
 cd /verif; res=""
+SNAP=$T/verif; mkdir -p $SNAP; rsync -a --exclude work --exclude evidence --exclude replays --exclude seeded --exclude benign --exclude .git /verif/ $SNAP/   # the machinery as it is now (immune to later edits)
+cd $SNAP
 for c in ${@:-$prop}; do
   out=$(VERIF_SCRATCH=$T/v MQTT_SRC=$T/src ./check $c --tier quick 2>&1); rc=$?
   echo "--- check $c rc=$rc"; echo "$out" | grep -v "^NOTE" | tail -4; [ $rc -eq 2 ] && echo "$out" | tail -30
